@@ -736,4 +736,223 @@ theorem decide_natAbs (z : Int) : decide (z = 0) = decide (z.natAbs = 0) := by
 
 end
 
+/-! ### `operator<< (ostream &, mpf)`: from the lengths of doprntf.c to the text -/
+
+section
+open List
+
+/-- the bytes between the (internal) padding and the padding on the right -/
+def bodyOf (q : Pieces) : List Char :=
+  q.s.take q.intlen.toNat ++ zeros q.intzeros ++ (if q.pointlen ≠ 0 then ['.'] else []) ++ zeros q.fraczeros ++
+    (q.s.drop q.intlen.toNat).take q.fraclen.toNat ++ zeros q.preczeros ++ q.expStr
+
+@[simp] theorem length_zeros (n : Int) : (zeros n).length = n.toNat := by simp [zeros]
+
+/-- doprntf.c:333-372 writes [padding] sign prefix [padding] body [padding] -/
+theorem emitPieces_bytes (p : Params) (q : Pieces) (hj : p.justify ≠ .none)
+    (h1 : 0 ≤ q.intlen) (h3 : 0 ≤ q.intzeros) (h4 : q.pointlen = 0 ∨ q.pointlen = 1) (h5 : 0 ≤ q.fraczeros) (h6 : 0 ≤ q.fraclen)
+    (h7 : q.intlen + q.fraclen ≤ q.s.length) (h8 : 0 ≤ q.preczeros) :
+    callsBytes (emitPieces p q) =
+      justLayout p.justify
+        (replicate (p.width - ((q.sign.toList.length + q.showbase.length + (bodyOf q).length : Nat) : Int)).toNat p.fill)
+        q.sign.toList q.showbase (bodyOf q) := by
+  have hl1 : (q.s.take q.intlen.toNat).length = q.intlen.toNat := by
+    rw [length_take]; omega
+  have hl2 : ((q.s.drop q.intlen.toNat).take q.fraclen.toNat).length = q.fraclen.toNat := by
+    rw [length_take, length_drop]; omega
+  have hpl : (if q.pointlen ≠ 0 then ['.'] else []).length = q.pointlen.toNat := by
+    rcases h4 with h | h <;> simp [h]
+  have hlen : ((q.sign.toList.length + q.showbase.length + (bodyOf q).length : Nat) : Int) =
+      (if q.sign.isSome then 1 else 0) + (q.showbase.length : Int) + q.intlen + q.intzeros + q.pointlen + q.fraczeros +
+        q.fraclen + q.preczeros + (q.expStr.length : Int) := by
+    unfold bodyOf
+    simp only [length_append, hl1, hl2, hpl, length_zeros]
+    cases q.sign <;> simp <;> omega
+  unfold emitPieces justLayout
+  simp only []
+  rw [← hlen]
+  generalize (p.width - ((q.sign.toList.length + q.showbase.length + (bodyOf q).length : Nat) : Int)) = jl
+  have hb : callsBytes ([Call.memory (q.s.take q.intlen.toNat)] ++ repsMaybe '0' q.intzeros.toNat ++
+      (if q.pointlen ≠ 0 then [Call.memory ['.']] else []) ++ repsMaybe '0' q.fraczeros.toNat ++
+      memoryMaybe ((q.s.drop q.intlen.toNat).take q.fraclen.toNat) ++ repsMaybe '0' q.preczeros.toNat ++ memoryMaybe q.expStr) = bodyOf q := by
+    unfold bodyOf zeros
+    simp only [callsBytes_append, callsBytes_repsMaybe, callsBytes_memoryMaybe, callsBytes_cons, callsBytes_nil, Call.bytes, append_nil]
+    split <;> simp [Call.bytes]
+  have hre : ∀ (A S M I L c1 c2 c3 c4 c5 c6 c7 : List Call), A ++ S ++ M ++ I ++ c1 ++ c2 ++ c3 ++ c4 ++ c5 ++ c6 ++ c7 ++ L =
+      A ++ (S ++ (M ++ (I ++ ((c1 ++ c2 ++ c3 ++ c4 ++ c5 ++ c6 ++ c7) ++ L)))) := by
+    intros; simp only [append_assoc]
+  rw [hre, callsBytes_append, callsBytes_append, callsBytes_append, callsBytes_append, callsBytes_append, hb]
+  generalize bodyOf q = body
+  by_cases hjl : jl ≤ 0
+  · have ht : jl.toNat = 0 := by omega
+    simp only [if_pos hjl, ht]
+    cases hs : q.sign <;> cases hjj : p.justify <;> simp_all [Call.bytes]
+  · simp only [if_neg hjl]
+    cases hs : q.sign <;> cases hjj : p.justify <;> simp_all [Call.bytes]
+
+theorem zeros_max (x : Int) : zeros (max 0 x) = zeros x := by
+  unfold zeros; congr 1; omega
+
+theorem zeros_nonpos (x : Int) (h : x ≤ 0) : zeros x = [] := by
+  unfold zeros; rw [show x.toNat = 0 by omega]; rfl
+
+/-- from the lengths to the text, given what the integer and the fraction part are -/
+theorem body_eq (general st sp : Bool) (prec : Int) (s ip fp expStr : List Char)
+    (intlen intzeros fraczeros fraclen preczeros pointlen : Int)
+    (hip : s.take intlen.toNat ++ zeros intzeros = ip) (hfp : zeros fraczeros ++ (s.drop intlen.toNat).take fraclen.toNat = fp)
+    (hfl : (fp.length : Int) = fraczeros + fraclen) (hil : (ip.length : Int) = intlen + intzeros)
+    (hpz : preczeros = if st = true then max 0 (prec - (fraczeros + fraclen + (if general = true then intlen + intzeros else 0))) else 0)
+    (hpt : pointlen = if fraczeros + fraclen + preczeros ≠ 0 ∨ sp = true then 1 else 0) :
+    s.take intlen.toNat ++ zeros intzeros ++ (if pointlen ≠ 0 then ['.'] else []) ++ zeros fraczeros ++
+      (s.drop intlen.toNat).take fraclen.toNat ++ zeros preczeros ++ expStr = floatBody general st sp prec ip fp expStr := by
+  unfold floatBody
+  simp only []
+  have hpzz : zeros preczeros =
+      (if st = true then zeros (prec - ((fp.length + (if general = true then ip.length else 0) : Nat) : Int)) else []) := by
+    rw [hpz]
+    cases st
+    · simp [zeros]
+    · simp only [if_true, zeros_max]
+      congr 1
+      cases general <;> simp <;> omega
+  have hfpn : 0 ≤ fraczeros + fraclen := by omega
+  have hpzl : (zeros preczeros).length = preczeros.toNat := length_zeros _
+  have hpzn : 0 ≤ preczeros := by rw [hpz]; split <;> omega
+  have hcond : (pointlen ≠ 0) ↔ (fp ++ zeros preczeros ≠ [] ∨ sp = true) := by
+    rw [hpt]
+    have : fp ++ zeros preczeros ≠ [] ↔ fraczeros + fraclen + preczeros ≠ 0 := by
+      rw [Ne, ← length_eq_zero_iff, length_append, hpzl]
+      omega
+    rw [this]
+    split <;> simp_all
+  rw [← hpzz]
+  have e : (if pointlen ≠ 0 then ['.'] else []) = (if fp ++ zeros preczeros ≠ [] ∨ sp = true then ['.'] else ([] : List Char)) := by
+    by_cases h : pointlen ≠ 0
+    · rw [if_pos h, if_pos (hcond.mp h)]
+    · rw [if_neg h, if_neg (fun hh => h (hcond.mpr hh))]
+  rw [e, ← hip, ← hfp]
+  simp only [append_assoc]
+
+theorem fParams_layout (o : OStream) (sign pre body : List Char) :
+    justLayout (paramsFromIos o).1.justify
+      (replicate ((paramsFromIos o).1.width - ((sign.length + pre.length + body.length : Nat) : Int)).toNat (paramsFromIos o).1.fill)
+      sign pre body = fieldLayout o.fmt o.width o.fill sign pre body := by
+  rcases o with ⟨out, e, fl, b, f, w, fi, pr⟩
+  rcases f with ⟨dec, oct, hex, sb, sp, up, l, r, it, fx, sc, spt, sk⟩
+  cases l <;> cases r <;> cases it <;> simp [paramsFromIos, fieldLayout, justLayout]
+
+theorem fParams_justify (o : OStream) : (paramsFromIos o).1.justify ≠ .none := by
+  rcases o with ⟨out, e, fl, b, f, w, fi, pr⟩
+  rcases f with ⟨dec, oct, hex, sb, sp, up, l, r, it, fx, sc, spt, sk⟩
+  cases l <;> cases r <;> cases it <;> simp [paramsFromIos]
+
+theorem piecesOf_sign (o : OStream) (letter : Char) (D : FDigits) :
+    (piecesOf (paramsFromIos o).1 letter D).sign.toList = if D.neg = true then ['-'] else if o.fmt.showpos = true then ['+'] else [] := by
+  rcases o with ⟨out, e, fl, b, f, w, fi, pr⟩
+  rcases f with ⟨dec, oct, hex, sb, sp, up, l, r, it, fx, sc, spt, sk⟩
+  cases hn : D.neg <;> cases sp <;> simp [piecesOf, paramsFromIos, hn]
+
+theorem piecesOf_empty (p : Params) (letter : Char) (D : FDigits) :
+    ((piecesOf p letter D).intlen = 0 ∧ (piecesOf p letter D).fraclen = 0) ↔ D.s = [] := by
+  rw [← length_eq_zero_iff]
+  simp only [piecesOf]
+  by_cases hs : D.sci = true
+  · simp only [hs, if_true, true_or]; omega
+  · by_cases he : D.exp ≤ 0
+    · have h0 : ¬ 0 < D.exp := by omega
+      simp only [hs, he, h0, if_true, if_false, false_or, Bool.false_eq_true]; simp
+    · have h0 : 0 < D.exp := by omega
+      simp only [hs, he, h0, if_true, if_false, false_or, Bool.false_eq_true]; omega
+
+theorem piecesOf_showbase (o : OStream) (letter : Char) (D : FDigits) :
+    (piecesOf (paramsFromIos o).1 letter D).showbase = prefixStr o.fmt (decide (D.s = [])) := by
+  have he := piecesOf_empty (paramsFromIos o).1 letter D
+  have hsb : (piecesOf (paramsFromIos o).1 letter D).showbase =
+      (if (paramsFromIos o).1.showbase = .no then []
+       else if (paramsFromIos o).1.showbase = .nonzero ∧ (piecesOf (paramsFromIos o).1 letter D).intlen = 0 ∧ (piecesOf (paramsFromIos o).1 letter D).fraclen = 0 then []
+       else (if (paramsFromIos o).1.base = 16 then ['0', 'x'] else if (paramsFromIos o).1.base = -16 then ['0', 'X']
+             else if (paramsFromIos o).1.base = 8 then ['0'] else [])) := rfl
+  rw [hsb]
+  simp only [he]
+  rcases o with ⟨out, e, fl, b, f, w, fi, pr⟩
+  rcases f with ⟨dec, oct, hex, sb, sp, up, l, r, it, fx, sc, spt, sk⟩
+  by_cases hz : D.s = [] <;>
+  cases dec <;> cases oct <;> cases hex <;> cases up <;> cases sb <;>
+    simp [paramsFromIos, prefixStr, Fmt.hexOnly, Fmt.octOnly, hz]
+
+theorem piecesOf_body (p : Params) (letter : Char) (D : FDigits) :
+    bodyOf (piecesOf p letter D) =
+      floatBody (decide (p.conv = 3)) p.showtrailing p.showpoint D.prec
+        (if D.sci = true then sciText D.s else fixedText D.s D.exp).1 (if D.sci = true then sciText D.s else fixedText D.s D.exp).2
+        (if D.sci = true then expTextIos letter (D.exp - ((min 1 D.s.length : Nat) : Int)) else []) := by
+  rcases D with ⟨neg, s, exp, prec, sci⟩
+  unfold bodyOf
+  cases sci
+  · by_cases he : exp ≤ 0
+    · -- 0.000sss
+      have h0 : ¬ 0 < exp := by omega
+      simp only [piecesOf, Bool.false_eq_true, if_false, he, if_true, false_or, h0, fixedText]
+      refine body_eq _ _ _ _ _ _ _ _ _ _ _ _ _ _ ?_ ?_ ?_ ?_ ?_ rfl
+      · simp [zeros]
+      · simp
+      · simp; omega
+      · simp
+      · simp
+    · -- sss.sss or sss000
+      have h0 : 0 < exp := by omega
+      simp only [piecesOf, Bool.false_eq_true, if_false, he, if_true, false_or, h0, fixedText]
+      by_cases hle : (s.length : Int) ≤ exp
+      · have hm : min (s.length : Int) exp = s.length := by omega
+        simp only [hm]
+        refine body_eq _ _ _ _ _ _ _ _ _ _ _ _ _ _ ?_ ?_ ?_ ?_ ?_ rfl
+        · simp only [Int.toNat_natCast, take_length]
+          rw [take_of_length_le (by omega)]
+        · simp only [Int.toNat_natCast, drop_length, take_nil, sub_self]
+          rw [drop_eq_nil_of_le (by omega)]
+          simp [zeros]
+        · rw [drop_eq_nil_of_le (by omega)]; simp
+        · rw [take_of_length_le (by omega)]; simp; omega
+        · simp
+      · have hm : min (s.length : Int) exp = exp := by omega
+        simp only [hm]
+        refine body_eq _ _ _ _ _ _ _ _ _ _ _ _ _ _ ?_ ?_ ?_ ?_ ?_ rfl
+        · rw [zeros_nonpos _ (by omega), zeros_nonpos _ (by omega)]
+        · rw [zeros_nonpos _ (le_refl _), nil_append, take_of_length_le (by rw [length_drop]; omega)]
+        · rw [length_drop]; omega
+        · rw [zeros_nonpos _ (by omega), append_nil, length_take]; omega
+        · simp
+  · -- d.ddd
+    simp only [piecesOf, if_true, true_or, sciText]
+    cases s with
+    | nil =>
+      simp only [length_nil, Int.natCast_zero, show min (1 : Int) 0 = 0 by omega, if_true, Nat.min_zero, Nat.cast_zero]
+      refine body_eq _ _ _ _ _ _ _ _ _ _ _ _ _ _ ?_ ?_ ?_ ?_ ?_ rfl
+      · simp [zeros]
+      · simp [zeros]
+      · simp
+      · simp
+      · simp
+    | cons a t =>
+      have hm : min (1 : Int) ((a :: t).length : Int) = 1 := by simp only [length_cons]; omega
+      have hmn : min 1 (a :: t).length = 1 := by simp only [length_cons]; omega
+      simp only [hm, hmn, show ¬ ((1 : Int) = 0) by omega, if_false, reduceCtorEq, Nat.cast_one]
+      refine body_eq _ _ _ _ _ _ _ _ _ _ _ _ _ _ ?_ ?_ ?_ ?_ ?_ rfl
+      · simp [zeros]
+      · simp [zeros]
+      · simp
+      · simp
+      · simp
+
+theorem piecesOf_bounds (p : Params) (letter : Char) (D : FDigits) :
+    0 ≤ (piecesOf p letter D).intlen ∧ 0 ≤ (piecesOf p letter D).intzeros ∧
+    ((piecesOf p letter D).pointlen = 0 ∨ (piecesOf p letter D).pointlen = 1) ∧ 0 ≤ (piecesOf p letter D).fraczeros ∧
+    0 ≤ (piecesOf p letter D).fraclen ∧ (piecesOf p letter D).intlen + (piecesOf p letter D).fraclen ≤ (piecesOf p letter D).s.length ∧
+    0 ≤ (piecesOf p letter D).preczeros := by
+  simp only [piecesOf]
+  cases hs : D.sci <;> simp only [Bool.false_eq_true, false_or, true_or, if_true, if_false]
+  all_goals refine ⟨?_, ?_, ?_, ?_, ?_, ?_, ?_⟩
+  all_goals first | (split_ifs <;> omega) | (split_ifs <;> simp) | omega
+
+end
+
 end Mpir.CxxIo
